@@ -9,6 +9,7 @@ Fixpoint sk0 (e:expr) : Prop :=
   match e with
   | Const _ | Var _ => True
   | Un UFact c => exists n, c = Const n
+  | Un UAbs _ => False
   | Un _ c => sk0 c
   | Bin KEq _ _ => False
   | Bin _ l r => sk0 l /\ sk0 r end.
